@@ -1408,7 +1408,9 @@ class Interp:
                     pass  # the model does not apply to this receiver: python's own semantics below
             if isinstance(recv, Obj) and isinstance(recv.attrs.get(f.attr), PyFunc):
                 return recv.attrs[f.attr].f(self.eval_args(e.args), self.eval_kwargs(e.keywords))  # a modelled callable stored on the object
-            if isinstance(recv, Obj) and recv.name != "tensorlib":  # the backend stand-in's methods are the array functions below, whatever the local variable is called
+            if isinstance(recv, Obj) and recv.name == "functools" and f.attr in ("reduce", "partial"):
+                pass  # functools.reduce is the builtin modelled below, whatever stands for the module in the scenario
+            elif isinstance(recv, Obj) and recv.name != "tensorlib":  # the backend stand-in's methods are the array functions below, whatever the local variable is called
                 vals = self.eval_args(e.args)
                 try:
                     xa = [to_poly(v) for v in vals]
